@@ -92,6 +92,7 @@ const (
 	OFpToUBV // fp -> bv A bits (RTZ), unspecified when out of range
 	OFpToSBV
 	OFpOfBits // reinterpret bv as fp
+	OFpRTI    // round to integral, A = mode (0 RTZ, 1 RTN (floor), 2 RTP (ceil), 3 RNE)
 )
 
 var opNames = map[Op]string{
@@ -939,6 +940,28 @@ func FpToBVRaw(a *Term, w int, sign bool) *Term {
 		op = OFpToSBV
 	}
 	return mk(op, BV(w), w, 0, 0, "", a)
+}
+
+var rmNames = [...]string{"RTZ", "RTN", "RTP", "RNE"}
+
+// FpRoundToIntegral rounds to an integral float (mode 0 toward zero, 1 down, 2 up, 3 nearest-even).
+func FpRoundToIntegral(a *Term, mode int) *Term {
+	if a.IsConst() {
+		x := fpval(a)
+		var r float64
+		switch mode {
+		case 0:
+			r = math.Trunc(x)
+		case 1:
+			r = math.Floor(x)
+		case 2:
+			r = math.Ceil(x)
+		default:
+			r = math.RoundToEven(x)
+		}
+		return fpconst(a.Sort.W, r)
+	}
+	return mk(OFpRTI, a.Sort, mode, 0, 0, "", a)
 }
 
 func FpOfBits(a *Term) *Term {
